@@ -36,6 +36,10 @@ type RevalidationContext struct {
 	Freshness  *Freshness
 	Refs       ResponseRefs
 	RefIndex   int
+	// ClientRequest, if not nil, is the request as the client made it: req
+	// passed to HandleValidationResponse additionally carries the validators
+	// the cache added. Variants are filed under the client's field values.
+	ClientRequest *http.Request
 	// Unchanged, if not nil, reports whether the stored response is still the
 	// one that was looked up before the origin was asked. It is consulted in
 	// one step with the write-back of a freshened response: a response that
@@ -83,6 +87,10 @@ func (r *validationResponseHandler) HandleValidationResponse(
 	resp *http.Response,
 	err error,
 ) (*http.Response, error) {
+	storeReq := req
+	if ctx.ClientRequest != nil {
+		storeReq = ctx.ClientRequest
+	}
 	if err == nil && req.Method == http.MethodGet && resp.StatusCode == http.StatusNotModified {
 		// RFC 9111 §4.3.3 Handling Validation Responses (304 Not Modified)
 		// RFC 9111 §4.3.4 Freshening Stored Responses upon Validation
@@ -98,7 +106,7 @@ func (r *validationResponseHandler) HandleValidationResponse(
 			) {
 			if cs, ok := r.rs.(ConditionalResponseStorer); ok {
 				_ = cs.StoreResponseIf(
-					req,
+					storeReq,
 					ctx.Stored.Data,
 					ctx.URLKey,
 					ctx.Refs,
@@ -109,7 +117,7 @@ func (r *validationResponseHandler) HandleValidationResponse(
 				)
 			} else if ctx.Unchanged == nil || ctx.Unchanged() {
 				_ = r.rs.StoreResponse(
-					req,
+					storeReq,
 					ctx.Stored.Data,
 					ctx.URLKey,
 					ctx.Refs,
@@ -170,7 +178,7 @@ func (r *validationResponseHandler) HandleValidationResponse(
 	case r.ce.CanStoreResponse(resp, ctx.CCReq, ccResp):
 		// RFC 9111 §4.3.3 Handling Validation Responses (full response)
 		// RFC 9111 §3.2 Storing Responses
-		_ = r.rs.StoreResponse(req, resp, ctx.URLKey, ctx.Refs, ctx.Start, ctx.End, ctx.RefIndex)
+		_ = r.rs.StoreResponse(storeReq, resp, ctx.URLKey, ctx.Refs, ctx.Start, ctx.End, ctx.RefIndex)
 		CacheStatusMiss.ApplyTo(resp.Header)
 		r.l.LogCacheMiss(req, ctx.URLKey, ctx.ToMisc(ccResp))
 	case IsUnsafeMethod(req.Method) && IsNonErrorStatus(resp.StatusCode):
